@@ -477,7 +477,10 @@ def numeric_facts(v0, v1, sim0, sim1, env) -> Dict[str, Any]:
                 gt = sim0.road_network.link_from_link_id(l.link_id)
                 vmax = max(vmax, float(gt.speed_kmph) if gt is not None and gt.speed_kmph else float(l.speed_kmph))
             geo_m = _h3.point_dist(_h3.h3_to_geo(v0.geoid), _h3.h3_to_geo(v1.geoid), unit="m")
-            facts["geo_ok"] = bool(geo_m <= vmax / 3.6 * dt * 1.02 + 5.0)
+            # "up to the simulator's whole-second rounding of each link's travel time": one second per link entered
+            route1 = getattr(v1.vehicle_state, "route", None) or ()
+            entered = min(len(route0), max(1, len(route0) - len(route1) + 1))
+            facts["geo_ok"] = bool(geo_m <= vmax / 3.6 * (dt + entered) * 1.02 + 5.0)
         except Exception:
             pass
     # a powertrain DEFINED with an idle consumption of zero (denver_rl_toy's toy_car) has nothing to expend when idling
